@@ -11,7 +11,7 @@ import rx.operators as rxops
 import rxsci as rs
 
 from . import funcs as F
-from .core import tap, InjectedFault, canon
+from .core import tap, InjectedFault, EmptyFault, canon
 
 
 def canon_exc(e):
@@ -147,14 +147,15 @@ def check_node(node, st, fl):
         if term is not None and (term not in F.TERMS or F.TERMS[term][1] != a[2]):
             raise Invalid('scan terminator type')
         reduce = bool(node.get('reduce'))
-        if a[3] and not reduce and fl.no_mut_stream:
+        mutating = a[3] or term in F.MUT_TERMS
+        if mutating and not reduce and fl.no_mut_stream:
             raise Invalid('streaming mutating accumulator')
         ot = F.STATE_ITEM_TYPE[a[2]]
         if a[2] == 'list' and t != 'int':
             ot = 'any'
         if node['seed'] == 'l_fac9' and ot == 'list' and t != 'int':
             ot = 'any'
-        return St(ot, st.empty and not reduce and term is None, st.after_take, aliased=a[3] and not reduce)
+        return St(ot, st.empty and not reduce and term is None, st.after_take, aliased=mutating and not reduce)
     if op == 'count':
         return St('int', st.empty and not node.get('reduce'), st.after_take)
     if op in MATH:
@@ -598,7 +599,7 @@ def _faulty(ctx, site, fn, item_arg):
         r = args[item_arg]
         if type(r) is F.Rec and (r.k, r.n) in plan:
             ctx.fired[site] = ctx.fired.get(site, 0) + 1
-            raise InjectedFault(site, r.k, r.n)
+            raise (EmptyFault if ctx.extra.get('falsy_faults') and (r.k + r.n) % 2 == 0 else InjectedFault)(site, r.k, r.n)
         return fn(*args)
     return wrapped
 
@@ -623,7 +624,7 @@ def build_node(node, ctx, mode, path, i):
             def fstar(k, n, v, t, c):
                 if (k, n) in plan:
                     ctx.fired[site] = ctx.fired.get(site, 0) + 1
-                    raise InjectedFault(site, k, n)
+                    raise (EmptyFault if ctx.extra.get('falsy_faults') and (k + n) % 2 == 0 else InjectedFault)(site, k, n)
                 return star(k, n, v, t, c)
             return rs.ops.starmap(fstar)
         return rs.ops.starmap(F.STARS[node['fn']][0])
